@@ -31,6 +31,21 @@ CHECKS = {
  'C14': dict(level='proof', design='§4 C14',
              text='The real MIR of all eleven primitive Lerp impls (f32, f64, nine integer types incl. the as-f32 casts, f32::round and num-traits from_f32 models, expect) is executed with symbolic a, b, x; endpoint laws for every value exactly representable in f32 (all 2^64 pairs for the wide types), range/no-panic and identity over all a, b of the 8-bit types (16-bit and wider: identity; range in thorough) with x on the stated grid (quick) or all x in [0,1] (thorough); one-ulp bound for f32 identity. Counterexamples are replayed natively in dev and release.',
              technique='symbolic execution of rustc MIR + SMT (cvc5/z3 portfolio, QF_FPBV)'),
+ 'C02': dict(level='proof', design='§4 C02',
+             text='Structural part: the real builder / derive(Animate) / SubTimeline / interpolate_value MIR is executed on every keyframe shape up to the bound (positions, values, time-scale output symbolic); per execution path the solver decides that at a position exactly on a defining keyframe, before the start, at 100% and after the end the produced value IS the keyframe / 0% / 100% / terminal value (lerp and easing uninterpreted, constrained only by instances of the endpoint lemmas proved in C13/C14). Kernel part: hold-at-1.0 rule, end of reversing cycles and constant Ended position on the real TimeScale MIR for all f32 inputs.',
+             technique='symbolic execution of rustc MIR (path enumeration) + SMT (z3 EUF+FP; cvc5/z3 portfolio for the time-scale kernel)'),
+ 'C08': dict(level='proof', design='§4 C08',
+             text='Real derive(Animate) update (S1/S2/S3 incl. the #[animate] filter), prepare_frame, SubTimeline::value_at and MergedTimeline::update executed symbolically from a fully symbolic prior target in every phase (not started / active / repeating / reversing / ended): the solver decides per path that every property without a keyframe, every excluded field and, with no keyframes, the whole target still hold their prior contents.',
+             technique='symbolic execution of rustc MIR + SMT (z3)'),
+ 'C09': dict(level='proof', design='§4 C09',
+             text='Per shape and path: update leaves the timeline value structurally identical; result terms of animated fields are identical for two different symbolic prior targets; a second evaluation is idempotent; the derive(Clone) clone is the same value; start_with(v1);start_with(v2) yields the same value as start_with(v2); metadata accessors are unchanged by start_with.',
+             technique='symbolic execution of rustc MIR + structural identity / SMT (z3)'),
+ 'C10': dict(level='proof', design='§4 C10',
+             text='Twin harness on the real code: a timeline and its clone after start_with(v) are evaluated at the same symbolic position; the solver decides per path: not started / 0% on the first pass => exactly v; repeating, reversing or ended => identical; first pass at or beyond the next keyframe => identical. The loop-state flags are tied to time on the real TimeScale MIR (is_repeating <=> later cycle, is_reversing <=> second half) for all f32 inputs (quick: 12-bit mantissas).',
+             technique='symbolic execution of rustc MIR (twin runs) + SMT (z3 EUF+FP; cvc5/z3 portfolio for the flags)'),
+ 'C12': dict(level='proof', design='§4 C12',
+             text='Real MergedTimeline::{of,from,clone,update,start_with,delay,duration,repeat,cycle_duration} MIR (with its reduce/min_by/max_by/max closures and Repeat ordering) over 0..3 (thorough 4) components with independent symbolic timing and every overlapping/disjoint property mask; components are abstract timelines obeying L-tl, plus real derive timelines for the single-timeline wrapper. Solver decides: overlay order, start_with propagation, delay=min, duration=max (inf), repeat=max, cycle_duration iff all agree, empty list.',
+             technique='symbolic execution of rustc MIR + SMT (z3 EUF+FP+BV)'),
  'C03': dict(level='proof', design='§4 C03',
              text='Bounded proof: every clause of the property is an SMT obligation over the symbolic execution of the real MIR of TimeScale::{new,get_position,get_duration,get_delay,get_cycle_duration,get_repeat}; all finite f32 t/delay/duration (quick: low 12 mantissa bits zero), every repeat variant and u32 count, both build profiles; sat answers are replayed natively before being reported.',
              technique='symbolic execution of rustc MIR + SMT (cvc5/z3 portfolio), QF_FPBV'),
